@@ -245,6 +245,11 @@ def correspond(ctx, corr):
             # device/instance scheme: the instance type comes from a map naming it
             from dali.device.helpers import DeviceInstanceTypeMapper
             mp = DeviceInstanceTypeMapper({(int(lp[3]), int(lp[4])): int(lp[2])})
+            if n % 2:
+                # one mapper per bus, empty when the frame is first seen and taught the instance's type afterwards
+                mp = DeviceInstanceTypeMapper()
+                command.from_frame(ForwardFrame(int(bits), int(data)), devicetype=bydt[name], dev_inst_map=mp)
+                mp.add_type(short_address=int(lp[3]), instance_number=int(lp[4]), instance_type=int(lp[2]))
         back = command.from_frame(ForwardFrame(int(bits), int(data)), devicetype=bydt[name], dev_inst_map=mp)
         if cc.clsname(back) != name:
             corr.violate("table:decode:" + name, lines[k], name, cc.clsname(back),
